@@ -71,7 +71,8 @@ let parse_action (a : string) : Model.action =
               | [st; body; d] -> Model.FRespond (n_of_string st, unhex body, d = "1")
               | _ -> failwith "R")
     | 'D' | 'P' -> Model.FDrop
-    | 'W' -> Model.FWriter (unhex rest)
+    | 'W' | 'X' -> Model.FWriter (unhex rest)
+    | 'Z' -> Model.FWriter []
     | 'U' -> Model.FUpgrade (unhex rest)
     | _ -> failwith "finish" in
   { Model.a_reads = reads; Model.a_finish = fin }
@@ -166,7 +167,7 @@ let () =
           try
             match f.(0) with
             | "rp" -> rp_case f
-            | "cv" -> cv_case f
+            | "cv" | "pl" -> cv_case f
             | "mqx" -> Explore.mqx_case f
             | "tpx" -> Explore.tpx_case f
             | "tp" -> Explore.tpx_case [| "tpx"; (if Array.exists (fun x -> x = "cfg=a") f then "a" else "f"); f.(1) |]
